@@ -60,7 +60,7 @@ def generate(rng, seed, tier='quick'):
             trials.append({'cuts': [c], 'gap_us': rng.choice([0, 1, 50]), 'end': 'eof', 'end_off': n})
         for e in range(0, n + 1):
             trials.append({'cuts': [], 'gap_us': 0, 'end': rng.choice(['eof', 'eof', 'reset']), 'end_off': e,
-                           'reopen': rng.random() < 0.5})
+                           'reopen': rng.random() < 0.5, 'exc': rng.choice(['reset', 'reset', 'timeout', 'abort', 'pipe', 'unreach'])})
         # byte-by-byte
         trials.append({'cuts': list(range(1, n)), 'gap_us': 1, 'end': 'none', 'end_off': n})
         exhaustive = True
@@ -84,7 +84,8 @@ def generate(rng, seed, tier='quick'):
             end_off = n if rng.random() < 0.5 else (min(n, rng.choice(bounds) + rng.randint(0, 12)) if rng.random() < 0.7
                                                     else rng.randint(0, n))
             trials.append({'cuts': sorted(set(c for c in cuts if 0 < c < n)), 'gap_us': rng.choice([0, 1, 2, 50]),
-                           'end': end, 'end_off': end_off, 'reopen': end != 'none' and rng.random() < 0.5})
+                           'end': end, 'end_off': end_off, 'reopen': end != 'none' and rng.random() < 0.5,
+                           'exc': rng.choice(['reset', 'reset', 'timeout', 'abort', 'pipe', 'unreach'])})
     return {'engine': 'framing', 'property': 'C06', 'seed': seed,
             'config': {'face': rng.choice(['tcp', 'tcp', 'unix']), 'turn_cost_us': rng.choice([0, 0, 1])},
             'packets': [p.hex() for p in pkts], 'trials': trials, 'exhaustive': exhaustive}
@@ -147,7 +148,7 @@ def _run_trial(sc, trial, agg):
         if trial['end'] == 'eof':
             w.at(t, peer.eof)
         elif trial['end'] == 'reset':
-            w.at(t, peer.reset)
+            w.at(t, peer.reset, trial.get('exc', 'reset'))
         stream2 = tlvref.tlv(6, tlvref.name_tlv(tlvref.name_from_uri('/second/1')) + tlvref.tlv(0x15, b'abc')) + \
             tlvref.tlv(5, tlvref.name_tlv(tlvref.name_from_uri('/second/2')) + tlvref.tlv(0x0a, b'\x00\x00\x00\x01'))
         if trial.get('reopen') and trial['end'] in ('eof', 'reset'):
